@@ -375,6 +375,14 @@ func check14(c *Case, o *Obs, rec Rec) (vs []viol, inconclusive string) {
 				}
 				kc = "md-" + sc.Mutate + "-after-" + call
 			}
+			if obsName == "header" && oc == "ok-no-message" {
+				// a successful call that sent no message: one class whatever
+				// else the handler did with its metadata
+				kc = oc + "," + how
+				if sc.DL == "writer" {
+					kc += ",httpbody-writer"
+				}
+			}
 			if sameKey[kv.K] {
 				if o.TrailersOnly {
 					continue // one header block carries both sets: the key is ambiguous
